@@ -53,7 +53,7 @@ SKEWED = ('cubicF', 'cubicF', 'cubicI', 'cubicI', 'rhomb', 'rhomb', 'hex', 'tric
 
 def cases(tier, seed):
     global CHUNK
-    n = 48 if tier == 'quick' else 2400
+    n = 48 if tier == 'quick' else 4800
     CHUNK = 5 if tier == 'quick' else 20
     return [{'seed': seed, 'idx': i, 'hashseed': i % 5 if tier == 'quick' else i % 7, 'tier': tier, 'mode': 'long' if i % 8 == 3 else ('dense' if i % 8 == 6 else ('multi' if i % 8 == 1 else 'std'))} for i in range(n)]
 
